@@ -392,6 +392,7 @@ def make_track(scenario):
             warmup_time_period=t.get("warmup_time_period"),
             completes_parent=bool(t.get("cp")),
             any_completes_parent=bool(t.get("acp")),
+            tags=t.get("tags"),
         )
 
     sched = []
@@ -401,7 +402,18 @@ def make_track(scenario):
         else:
             sched.append(track.Parallel([mk(t) for t in e["par"]], clients=e.get("clients")))
     ch = track.Challenge("default", default=True, schedule=sched)
-    return track.Track(name="simtrack", description="sim", challenges=[ch])
+    trk = track.Track(name="simtrack", description="sim", challenges=[ch])
+    flt = scenario.get("task_filter")
+    if flt:
+        # --include-tasks / --exclude-tasks as the loader applies them (C11: the filtered track is what the driver runs)
+        from esrally.track import loader
+
+        class _FilterCfg:
+            def opts(self, section, key, default_value=None, mandatory=True):
+                return {("track", "include.tasks"): flt.get("include"), ("track", "exclude.tasks"): flt.get("exclude")}.get((section, key), default_value)
+
+        loader.TaskFilterTrackProcessor(_FilterCfg()).on_after_load_track(trk)
+    return trk
 
 
 class RaceControlStub:
